@@ -117,6 +117,30 @@ func (fc *FnCtx) Generate() (err error) {
 	fc.declare("now@0", sInt)
 	fc.ghost["now"] = "now@0"
 	fc.ghost0["now"] = "now@0"
+	// hand-off ghost state: one flag per channel send of a pointer (set at the send, cleared where the sent
+	// SSA value is defined), so that a later access through the same value is an access after the hand-off
+	fc.sentOf = map[ssa.Value][]string{}
+	if fc.con.Opts["lockcheck"] != "" {
+		k := 0
+		for _, b := range fc.fn.Blocks {
+			for _, in := range b.Instrs {
+				if sd, ok := in.(*ssa.Send); ok {
+					if _, isPtr := sd.X.Type().Underlying().(*types.Pointer); isPtr {
+						if _, isParam := sd.X.(*ssa.Parameter); isParam {
+							continue // a parameter stays the caller's business
+						}
+						k++
+						name := fmt.Sprintf("sent.%d", k)
+						fc.sentOf[sd.X] = append(fc.sentOf[sd.X], name)
+						fc.sentAt = append(fc.sentAt, sentSite{sd, name})
+						fc.ghostSort[name] = sBool
+						fc.ghost[name] = "false"
+						fc.ghost0[name] = "false"
+					}
+				}
+			}
+		}
+	}
 	// lock ghost state
 	fc.ghostSort["held"] = arrSort(sBool)
 	fc.declare("held@0", arrSort(sBool))
@@ -510,6 +534,11 @@ func (fc *FnCtx) processBlock(b *ssa.BasicBlock) {
 	if li != nil {
 		fc.enterLoop(li)
 	}
+	for _, in := range b.Instrs {
+		if phi, ok := in.(*ssa.Phi); ok {
+			fc.resetSent(phi)
+		}
+	}
 
 	for idx, in := range b.Instrs {
 		if _, ok := in.(*ssa.Phi); ok {
@@ -520,6 +549,7 @@ func (fc *FnCtx) processBlock(b *ssa.BasicBlock) {
 		fc.exec(in)
 		if v, ok := in.(ssa.Value); ok {
 			fc.nameVal(v)
+			fc.resetSent(v)
 		}
 	}
 	fc.exitHeap[b] = fc.heap
@@ -821,6 +851,11 @@ func (fc *FnCtx) computeLoopMods(li *loopInfo) {
 				n := fc.calleeName(c.Common())
 				if n == "(*sync.Mutex).Lock" || n == "(*sync.Mutex).Unlock" {
 					li.modRegs["ghost.held"] = true
+				}
+			}
+			for _, st := range fc.sentAt {
+				if st.instr == in {
+					li.modRegs["ghost."+st.name] = true
 				}
 			}
 		}
